@@ -238,6 +238,22 @@ func c11Case(c *core.Case) {
 		return
 	}
 	v := c11Value(c, 2)
+	if gen.Chance(r, 0.04) {
+		// the value sits under many levels of brackets, inside a constructor that
+		// goes on after it
+		n := gen.Pick(r, []int{20, 63, 64, 65, 70, 130, 300})
+		inner := v
+		mixed := gen.Chance(r, 0.5)
+		for i := 0; i < n; i++ {
+			if mixed && i%3 == 2 {
+				inner = cty.ObjectVal(map[string]cty.Value{"k": inner})
+			} else {
+				inner = cty.TupleVal([]cty.Value{inner})
+			}
+		}
+		v = cty.ObjectVal(map[string]cty.Value{"deep": inner, "zz_after": cty.NumberIntVal(2)})
+		c.Count("value:deeply-nested")
+	}
 	viaAttr := gen.Chance(r, 0.4)
 	var src []byte
 	var got cty.Value
